@@ -441,6 +441,10 @@ analyse(struct doc *d)
 			d->lng |= ulen >= 1024;
 			/* inside the line or directly behind it */
 			for (size_t c = s + 1; c <= t && c < n; c++) {
+				if (k == K_NEARLONG && d->cls[c] == K_ESCAPE) {
+					/* the line fits; a cut behind a backslash is the escape construct */
+					continue;
+				}
 				d->cls[c] = (unsigned char)k;
 			}
 			/* the line limit of the anchors: 1024 bytes of line */
@@ -1281,6 +1285,17 @@ crafted(struct doc *d, int which)
 			 "## next\nBEGIN:VCALENDAR\nBEGIN:VEVENT\nUID:sep2\nSUMMARY:two\nDTSTART:20200302T100000Z\nEND:VEVENT\nEND:VCALENDAR\n");
 		break;
 	default:
+		if (which >= 19 && which < 19 + 44) {
+			/* a value that reaches the 1 KiB line limit by way of backslash escapes: the length of the line's
+			 * plain part runs through every value around the limit, the escapes straddle it */
+			const int pad = 985 + (which - 19);
+			snprintf(d->name, sizeof(d->name), "DESCRIPTION: + %d x 'x' + twelve backslash escapes (the line limit falls inside the escapes)", pad);
+			doc_puts(d, "BEGIN:VCALENDAR\nBEGIN:VEVENT\nUID:esc-long\nSUMMARY:true\nDTSTART:20200301T100000Z\nDESCRIPTION:");
+			doc_rep(d, 'x', (size_t)pad);
+			doc_puts(d, "\\,\\;\\\\\\n\\,\\;\\\\\\n\\,\\;\\\\\\n");
+			doc_puts(d, "\nLOCATION:/tmp\nEND:VEVENT\nEND:VCALENDAR\n");
+			break;
+		}
 		return 0;
 	}
 	return 1;
@@ -1357,7 +1372,7 @@ enum_docs(bool samples)
 			break;
 		}
 		n = D.n;
-		cur_slug = samples ? NULL : crafted_slug[i];
+		cur_slug = samples ? NULL : i < (int)(sizeof(crafted_slug) / sizeof(*crafted_slug)) ? crafted_slug[i] : "long-line-escapes";
 		vd_shape("%s/load", D.fam);
 		if (vd_next()) {
 			const unsigned sv = parts_mask;
